@@ -7,6 +7,8 @@ EXPLANATION = ("Bounded runtime contracts at the public interface PhaseSpaceGene
 ASSUMPTIONS = ["A-LIB: TensorFlow's random number generator delivers independent uniform variates (statistical clauses only)",
                "A-MATH: Raubold-Lynch - the product of break-up momenta is the Lorentz-invariant phase-space density in the sequential-mass coordinates"]
 
+EXPLANATION += (' Proved (all inputs): exact event count of generate (loop VCs), monotonicity lemmas on the real get_p, acceptance weight <= 1 for n = 3, 4 (5 thorough) through set_decay / get_weight with get_p summarised by those lemmas, per-event acceptance rule of flatten_mass, two-body kinematics; cal_max_weight against a recording optimiser (bounded, modular).')
+
 from vt.contracts import iface_gen  # noqa: F401,E402
 from vt.contracts import loops  # noqa: F401,E402
 from vt.contracts import phsp_sym  # noqa: F401,E402
